@@ -131,10 +131,16 @@ func checkC06(r *mon.Run) {
 						c06Inside(r, rng, s, egIf, egScope, from, byType)
 					}
 				}
+				// a packet from inside on which THIS router would have to effect
+				// the segment change: the ingress "interface" is not one of the
+				// allowed pairs whatever the egress type
+				for from := 0; from < 2; from++ {
+					c06InsideXover(r, rng, s, byType(et, true), from, byType)
+				}
 			}
 		}
 	}
-	r.Require(1000, 100, "allowed_forwarded", "illegal_rejected_scmp")
+	r.Require(1000, 100, "allowed_forwarded", "illegal_rejected_scmp", "inside_xover_rejected_scmp")
 }
 
 var c06ModeName = []string{"same-seg", "seg-change", "peering"}
@@ -208,6 +214,55 @@ func c06Inside(r *mon.Run, rng *rand.Rand, s *rfix.Star, egIf rfix.IfSpec, egSco
 	// interface of this router"
 	allowed := egScope == 0
 	c06Judge(r, s, sc, in, &res, allowed, fmt.Sprintf("inside/%s/->%s/eg-%s", arrival, ltName(egIf.LinkTo), c06ScopeName[egScope]))
+}
+
+func c06InsideXover(r *mon.Run, rng *rand.Rand, s *rfix.Star, egIf rfix.IfSpec, from int,
+	byType func(topology.LinkType, bool) rfix.IfSpec) {
+
+	now := time.Now().Unix()
+	arrival := "host"
+	inIf := rfix.IfSpec{ID: 0}
+	if from == 1 {
+		arrival = "sibling"
+		inIf = byType([]topology.LinkType{topology.Core, topology.Parent, topology.Child, topology.Peer}[rng.IntN(4)], false)
+	}
+	sc := s.GenScenarioOpt(rng, rfix.ShXover, now, rfix.ScnOpt{InIf: &inIf, EgIf: &egIf, KeepPreXover: true})
+	if from == 0 {
+		sc.In = rfix.Ingress{IfID: 0, Src: &net.UDPAddr{IP: net.IPv4(10, 0, 8, byte(1+rng.IntN(200))), Port: 31001}}
+		if rng.IntN(2) == 0 {
+			sc.SrcIA = s.Cfg.IA
+		}
+	}
+	in, err := sc.Packet(rng, nil)
+	if err != nil {
+		r.Inconclusive("build-error")
+		return
+	}
+	res := s.Process(in, sc.In)
+	r.Eval(1)
+	if res.Panic != "" {
+		r.Violation("C06:panic:"+mon.PanicSite(res.Stack), "panic", witness(s, sc, "inside-xover", in, &res))
+		return
+	}
+	cls := fmt.Sprintf("inside-xover/%s/->%s", arrival, ltName(egIf.LinkTo))
+	got := "drop"
+	switch {
+	case res.Forwarded():
+		got = "forward"
+	case res.ViaSlow && res.Out != nil:
+		got = fmt.Sprintf("scmp-%d-%d", res.SlowKind, res.SlowCode)
+	}
+	r.Class(cls + "/" + got)
+	if res.Forwarded() {
+		r.Violation("C06:illegal-forwarded:"+cls, "a packet from inside the AS was forwarded across a segment change effected by this router (no ingress link type: not an allowed pair)", witness(s, sc, cls, in, &res))
+		return
+	}
+	if res.ViaSlow && res.SlowKind == scmpParamProblem && res.Out != nil {
+		r.Event("inside_xover_rejected_scmp")
+	} else {
+		// a silent drop (transit-source validation) is also a refusal
+		r.Event("inside_xover_dropped")
+	}
 }
 
 func c06Judge(r *mon.Run, s *rfix.Star, sc *rfix.Scn, in []byte, res *rfix.Result, allowed bool, cls string) {
